@@ -22,7 +22,7 @@ def _gen(ctx, cfg, module, simulate=None, timeout=600, name=None):
 
 def _expect_defect(ctx, cfg, module, want):
     """The Defects={d} variant of the design must violate the property (the model really distinguishes)."""
-    r = ctx.tlc(SPEC, cfg, module=module, expect_fail=True, timeout=600)
+    r = ctx.tlc(SPEC, cfg, module=module, expect_fail=True, timeout=600, deadlock_check=False)
     if r.violated not in want:
         raise vlib.Infra("%s: expected a violation of %s with the defect switched on, got %r %s"
                          % (cfg, want, r.violated, (r.error or "")[:500]))
@@ -139,7 +139,154 @@ def run_c22(ctx, pid):
     ctx.evidence("model_checking", cov, assumptions)
 
 
+# =============================================================================================== C21
+def _dedupe(behaviours, fields):
+    seen, out = set(), []
+    for b in behaviours:
+        sig = json.dumps([b[0]] + [[o.get(f) for f in fields] for o in b[1:]], sort_keys=True)
+        if sig not in seen:
+            seen.add(sig)
+            out.append(b)
+    return out
+
+
+def _router_long(pool, preset, sends):
+    return [{"op": "Init", "strategy": "rr", "pool": pool, "preset": preset, "vn": 2, "vh": {}, "kh": {"none": 0}, "hasher": "table"},
+            {"op": "Send", "r": -1, "key": "-", "d": 0, "to": [], "rep": sends}]
+
+
+def _with_default_hasher(b, vn=0):
+    return [dict(b[0], hasher="default", vn=vn)] + b[1:]
+
+
+def _parallel(jobs, workers=3):
+    import concurrent.futures as cf
+    with cf.ThreadPoolExecutor(max_workers=workers) as ex:
+        futs = [ex.submit(j) for j in jobs]
+        return [f.result() for f in futs]
+
+
+def run_c21(ctx, pid):
+    q = ctx.quick
+    rfields = ("op", "r", "key", "d")
+    # 1. design: the repaired design satisfies C21 in the bounded model (W-bit counter: the whole counter cycle);
+    #    each deviation of the shipped code violates it in the model
+    t = "" if q else "_t"
+    holds = [("MC_Router_rr%s.cfg" % t, "MC_Router"), ("MC_Router_fr%s.cfg" % t, "MC_Router"),
+             ("MC_Router_hash%s.cfg" % t, "MC_Router"), ("MC_Ring_static%s.cfg" % t, "MC_RingSys")]
+    if not q:
+        holds += [("MC_Router_hash_t2.cfg", "MC_Router"), ("MC_RingSys.cfg", "MC_RingSys")]
+    res = _parallel([(lambda c=c, m=m: ctx.tlc_must_hold(SPEC, c, module=m, timeout=2400, deadlock_check=False)) for c, m in holds], workers=2)
+    defects = [("MC_Router_rr_WrapIndex.cfg", "MC_Router", ("NoDrop", "RoundRobin")),
+               ("MC_Router_rr_MapOrder.cfg", "MC_Router", ("RoundRobin",)),
+               ("MC_Router_rr_DeadRoutee.cfg", "MC_Router", ("NoDrop", "RoundRobin")),
+               ("MC_Router_fr_DeadRoutee.cfg", "MC_Router", ("NoDrop", "FanOut")),
+               ("MC_Router_hash_DeadRoutee.cfg", "MC_Router", ("NoDrop", "Sticky")),
+               ("MC_Router_hash_RingTie.cfg", "MC_Router", ("Sticky",)),
+               ("MC_Ring_static_RingTie.cfg", "MC_RingSys", ("Monotone",))]
+    dres = _parallel([(lambda c=c, m=m, w=w: _expect_defect(ctx, c, m, w)) for c, m, w in defects], workers=3)
+    ctx.log("design: %s hold; defect variants violate: %s"
+            % (", ".join("%s %d states" % (c[3:-4], r.distinct) for (c, _), r in zip(holds, res)),
+               ", ".join("%s->%s" % (c[3:-4], r.violated) for (c, _, _), r in zip(defects, dres))))
+
+    # 2. behaviours from TLC (real counter width, presets just below the wrap)
+    gens = _parallel([
+        lambda: _gen(ctx, "Gen_Router_rr%s.cfg" % t, "Gen_Router"),
+        lambda: _gen(ctx, "Gen_Router_fanout%s.cfg" % t, "Gen_Router"),
+        lambda: _gen(ctx, "Gen_Router_hash%s.cfg" % t, "Gen_Router"),
+        lambda: _gen(ctx, "Sim_Router_rr.cfg", "Gen_Router", simulate="num=%d" % (25 if q else 400)),
+        lambda: _gen(ctx, "Sim_Router_hash.cfg", "Gen_Router", simulate="num=%d" % (25 if q else 400)),
+        lambda: _gen(ctx, "Sim_Router_fanout.cfg", "Gen_Router", simulate="num=%d" % (10 if q else 200)),
+        lambda: _gen(ctx, "Gen_RingSys%s.cfg" % t, "Gen_RingSys"),
+        lambda: _gen(ctx, "Sim_RingSys.cfg", "Gen_RingSys", simulate="num=%d" % (20 if q else 500)),
+    ], workers=3)
+    rr, fo, hs, srr, shs, sfo, rg, srg = gens
+    rr, fo, hs = _dedupe(rr, rfields), _dedupe(fo, rfields), _dedupe(hs, rfields)
+    rg = _dedupe(rg, ("op", "members", "key"))
+    n_exh = len(rr) + len(fo) + len(hs)
+    if len(rr) < 500 or len(fo) < 200 or len(hs) < 500 or len(rg) < 500 or min(len(srr), len(shs), len(sfo), len(srg)) < 5:
+        raise vlib.Infra("behaviour generation produced too little: %s" % [len(x) for x in gens])
+    sampled = False
+    if q:  # quick: every round-robin history, seed-dependent samples of the (much larger) fan-out / hash sets
+        if len(fo) > 500:
+            fo, sampled = ctx.rng.sample(fo, 500), True
+        if len(hs) > 1200:
+            hs, sampled = ctx.rng.sample(hs, 1200), True
+    longs = [_router_long(3, 3000, 8000)] if q else [_router_long(3, 30000, 80000), _router_long(4, 5, 20000), _router_long(2, 10001, 30000)]
+    dflt = [_with_default_hasher(b) for b in shs] + [_with_default_hasher(b, vn=3) for b in shs[: len(shs) // 2]]
+    router_b = rr + fo + hs + srr + shs + sfo + longs + dflt
+    ring_b = rg + srg + [_with_default_hasher(b) for b in srg] + [_with_default_hasher(b, vn=1) for b in srg]
+    rb, gb = ctx.tmp("router-behaviours.ndjson"), ctx.tmp("ring-behaviours.ndjson")
+    vlib.write_ndjson(rb, router_b)
+    vlib.write_ndjson(gb, ring_b)
+    ctx.log("behaviours: router %d rr + %d fanout/random + %d hash (BFS%s) + %d random walks + %d long + %d default-hasher; ring %d BFS + %d walks (x3 hashers)"
+            % (len(rr), len(fo), len(hs), ", sampled" if sampled else "", len(srr) + len(shs) + len(sfo), len(longs), len(dflt), len(rg), len(srg)))
+
+    # 3. replay on a real actor system (router + recording routees) and on the real ring
+    exe = ctx.build("routing")
+    rtrace, gtrace = ctx.tmp("router-trace.ndjson"), ctx.tmp("ring-trace.ndjson")
+    p = ctx.run([exe, "router", rb, rtrace], timeout=1800)
+    rstats = json.loads(p.stdout.strip().splitlines()[-1])
+    p = ctx.run([exe, "ring", gb, gtrace], timeout=600)
+    gstats = json.loads(p.stdout.strip().splitlines()[-1])
+
+    # 4. TLC judges the real traces
+    (rm, rdrift), (gm, gdrift) = _parallel([
+        lambda: _judge(ctx, rtrace, rstats["events"], "Trace_RouterMon.cfg", "Trace_Router.cfg", "router"),
+        lambda: _judge(ctx, gtrace, gstats["events"], "Trace_RingMon.cfg", "Trace_RingSys.cfg", "ring")], workers=2)
+    drift = "; ".join(d for d in (rdrift, gdrift) if d) or None
+    if rstats["waits_expired"]:
+        drift = (drift + "; " if drift else "") + "%d driver waits expired (quiescence not reached in time)" % rstats["waits_expired"]
+
+    def nontrivial(b):
+        ops = [o["op"] for o in b[1:]]
+        sends = sum(o.get("rep", 1) for o in b[1:] if o["op"] == "Send")
+        if b[0].get("strategy") == "rr":
+            return (b[0]["preset"] > 0 and sends > b[0]["preset"]) or (sends >= 2 and any(x != "Send" for x in ops))
+        return sends >= 1 and any(x in ("Die", "Fail", "Adjust") for x in ops)
+    nt = len({json.dumps(b, sort_keys=True) for b in router_b if nontrivial(b)}) + \
+        len({json.dumps(b, sort_keys=True) for b in ring_b if sum(1 for o in b[1:] if o["op"] == "RSet") >= 2})
+    cov = {
+        "states": ctx.states()[0], "transitions": ctx.states()[1],
+        "traces_validated_against_impl": len(router_b) + len(ring_b),
+        "samples": [rr[len(rr) // 2], hs[len(hs) // 2], srr[0][:14], rg[len(rg) // 2]],
+        "evaluations": len(router_b) + len(ring_b), "distinct_nontrivial": nt,
+        "rule": "router: every history of the stated depth over {Send(key), Die(r), Fail(r), Adjust(+-d), GetRoutees} per strategy (TLC BFS at the real "
+                "counter width, round-robin counter preset to 2^32-k%s), TLC random walks of depth 20-30, long round-robin runs across the wrap, and the hash "
+                "walks repeated with the default xxh3 hasher; ring: every set/lookup history of the stated depth plus random walks, each with the "
+                "table hasher and the default hasher. Non-trivial = round-robin history that crosses the uint32 wrap or mixes sends with membership "
+                "changes; other strategies: a send plus a routee death/failure/pool adjustment; ring: at least two set calls"
+                % ("; quick tier: seed-dependent sample of the fan-out/hash BFS sets" if sampled else ""),
+        "events_validated": rstats["events"] + gstats["events"], "exhaustive_histories_generated": n_exh + len(rg),
+        "random_walks": len(srr) + len(shs) + len(sfo) + len(srg), "routed_messages": rstats["sent"],
+        "exhaustive": not sampled, "conformance_drift": drift, "ring_prediction_mismatches": gstats["pred_mismatch"],
+        "monitor_mismatches": len(rm) + len(gm),
+    }
+    assumptions = ["64-bit platform (Go int is 64 bits)",
+                   "the router's uint32 counter is preset through the verif-tag shim VerifRouterSetCounter instead of routing 2^32 messages",
+                   "operations are issued one at a time and the driver waits for quiescence (router and routee mailboxes empty, stopped routee "
+                   "removed from the actor tree) before the next one: routee deaths racing an in-flight message are not explored",
+                   "tiny hash spaces are injected through the public WithConsistentHashHasher option (table hasher); with the default xxh3 hasher "
+                   "only the monitor applies (ownership is not computable in the model)",
+                   "pool sizes <= 4 (routee order by index equals order by name)"]
+    if rm or gm:
+        which, trace, mism = ("router", rtrace, rm) if rm else ("ring", gtrace, gm)
+        rows = vlib.read_ndjson(trace)
+        snippet, first = _cut(rows, mism[0][0])
+        sp = ctx.tmp("violation-%s.ndjson" % which)
+        vlib.write_ndjson(sp, snippet)
+        rpth = ctx.save_replay("seed%d" % ctx.seed, sp)
+        ctx.evidence("model_checking", cov, assumptions, violations=len(rm) + len(gm))
+        raise vlib.Violation(pid, rpth, "monitor (%s): %s check failed for %s at trace line %d (line %d of the saved behaviour): observed %s, expected %s; %d mismatches"
+                             % (which, mism[0][2], mism[0][1], mism[0][0], mism[0][0] - first + 1, mism[0][3], mism[0][4], len(rm) + len(gm)))
+    if drift:
+        ctx.log("conformance drift (not a verdict): " + drift)
+    ctx.evidence("model_checking", cov, assumptions)
+
+
 def run(ctx, pid):
     if pid == "C22":
         return run_c22(ctx, pid)
-    raise vlib.Infra("not implemented: " + pid)
+    if pid == "C21":
+        return run_c21(ctx, pid)
+    raise vlib.Infra("unknown property " + pid)
